@@ -820,6 +820,12 @@ def audit5_cases(chk):
         ('e = <int subclass whose __int__ answers 300>(1)', lambda x: setattr(x, 'e', OtherInt(1))),
         ('e = <int subclass that hashes and compares like 1>(77)', lambda x: setattr(x, 'e', LooksLikeOne(77))),
         ('es.append(<int subclass whose __int__ answers 300>(2))', lambda x: x.es.append(OtherInt(2))),
+        ('f = 1 << 130 (an int no r32 can hold, a double can)', lambda x: setattr(x, 'f', 1 << 130)),
+        ('f = 2**128 - 2**103 (rounds beyond the largest r32)', lambda x: setattr(x, 'f', 2 ** 128 - 2 ** 103)),
+        ('f = -(1 << 200)', lambda x: setattr(x, 'f', -(1 << 200))),
+        ('f = 2**127 (an int an r32 holds)', lambda x: setattr(x, 'f', 2 ** 127)),
+        ('d = 1 << 1023; d = (1 << 1024) - 1', lambda x: (setattr(x, 'd', 1 << 1023), setattr(x, 'd', (1 << 1024) - 1))),
+        ('f = 1e39; f = True; f = <IntEnum>', lambda x: (setattr(x, 'f', True), setattr(x, 'f', 1e39))),
         ('b4 = <bytes subclass whose __len__ answers 0>(8 bytes)', lambda x: setattr(x, 'b4', Short(b'abcdefgh'))),
         ('bl = <bytes subclass whose __len__ answers 0>(8 bytes)', lambda x: setattr(x, 'bl', Short(b'abcdefgh'))),
         ('bd = <bytes subclass whose __len__ answers 0>(300 bytes)', lambda x: setattr(x, 'bd', Short(b'x' * 300))),
@@ -848,9 +854,10 @@ def audit5_cases(chk):
             continue
         try:
             enc = x.encode('<')
-            text = str(x)
+            str(x)
             back = Hh()
-            ok = back.decode(enc, '<') == len(enc) and back.encode('<') == enc and str(back) == text
+            # (the texts are not compared: a float field reads back the number that was assigned, not the one it encodes - D58)
+            ok = back.decode(enc, '<') == len(enc) and back.encode('<') == enc
             why = 'its own encoding decodes to another message'
         except Exception as ex:  # noqa
             ok, why = False, 'the message no longer encodes / prints / decodes its own encoding: %s' % py_impl.exc_class(ex)
